@@ -407,6 +407,8 @@ class Grammar(object):
             kind, obj = self.idx.resolve_dotted(d)
             if kind == 'func':
                 target = obj
+        elif local and isinstance(self.env.get(f.id), Action) and self.env[f.id].kind == 'method' and self.env[f.id].extra is not None:
+            target = self.env[f.id].extra          # a local alias of a method: `gim = self.group_if_multiple`
         if target is not None:
             factory = True
             try:
